@@ -31,12 +31,12 @@ Inductive top :=
 | OSort (ck : N)                                     (* a consistent comparator, see [cmp_of] *)
 | OSortObs (log : list (N * N * Z)) (out : list (option N))   (* arbitrary recorded comparator + observed result *)
 | OExport
-| OToggle (to_sparse : bool).                       (* twin only: the storage was switched (no-op for S) *)
+| OToggle (to_sparse : bool) (drift : N).                       (* twin only: the storage was switched (no-op for S) *)
 Arguments OSet _ (_ _)%N.  Arguments OSetLen _ _ _%N.  Arguments ODefine _ _%N _.  Arguments ODefLen _ _%N _.
 Arguments ODelete _ _%N.  Arguments OGet _%N.  Arguments OHas _%N.  Arguments OProto (_ _ _ _)%N.
 Arguments OPush _%N.  Arguments OUnshift _%N.  Arguments OSplice _%Z _%Z _%N.  Arguments OFill _%N _%Z _%Z.
 Arguments OCopyWithin (_ _)%Z _%Z.  Arguments OSlice _%Z _%Z.  Arguments OConcat _%N.  Arguments OConcatV _%N.
-Arguments OIndexOf _%N _%Z.  Arguments OIncludes _%N _%Z.  Arguments OSort _%N.  Arguments OSortObs _ _%N.
+Arguments OToggle _ _%N.  Arguments OIndexOf _%N _%Z.  Arguments OIncludes _%N _%Z.  Arguments OSort _%N.  Arguments OSortObs _ _%N.
 
 Inductive dump := DSame | D (len : N) (lw ext : bool) (els ots : list ent).
 Arguments D _%N _ _ _ _.
@@ -165,7 +165,7 @@ Definition step (a : A) (o : top) : A * result :=
       then a_sort_with P a (flat_map (fun x => match x with Some v => [v] | None => [] end) out)
       else (a, RErr 99)                    (* the validator rejected the observed result: never matches *)
   | OExport => (a, RA (norm_export (o_export O a)))
-  | OToggle _ => (a, RU)
+  | OToggle _ _ => (a, RU)
   end.
 
 Definition dump_eqb_dec (x y : dump) : bool :=
@@ -234,14 +234,14 @@ Definition stepI (a : iarr) (o : top) : iarr * result :=
       if check_sort_array (cmp_of_log log) input out
       then i_sort_with a (flat_map (fun x => match x with Some v => [v] | None => [] end) out)
       else (a, RErr 99)
-  | OToggle to_sparse =>
+  | OToggle to_sparse drift =>
       match a, to_sparse with
       | ID d, true => (IS (expand_d2s d), RU)
       | IS s, false =>
           if 8000 <? sa_length s then (a, RU) else
           let d := expand_s2d s (sa_length s - 1) in
           (* the real forcing adds ~1100 elements and truncates: objCount keeps that surplus *)
-          (ID (mkDA (if sa_length s =? 0 then [] else da_values d) (da_length d) (da_objCount d + 1100)%Z
+          (ID (mkDA (if sa_length s =? 0 then [] else da_values d) (da_length d) (da_objCount d + Z.of_N drift)%Z
                     (da_pvc d) (da_lw d) (da_base d)), RU)
       | _, _ => (a, RU)
       end
@@ -363,21 +363,18 @@ Definition values_longer (a : iarr) : bool :=
   match a with ID d => da_length d <? nlen (da_values d) | _ => false end.
 
 (* tags (each names one recorded finding, see known/C07.json):
-   1 = stale valueProperty fields after a data<->accessor conversion (N1-N4, F1);
-   2 = this very define converts the kind of an existing property (F1, N1, N3, N4);
-   3 = the fast-path guard holds although the array has holes: drifted objCount (F3, F5, N5);
-   4 = F4: sparse storage, non-configurable element exactly at the new length;
+   1 = stale valueProperty fields after a configurable data<->accessor conversion (N1-N3);
+   (2 and 4 were F1 and F4, repaired in /repo by 7dd46dd+8a03683 and a4a2aa5)
+   3 = the fast-path guard holds although the array has holes: objCount drifted by truncation/pop (N5);
    6 = N6: a non-configurable element at/above the new length while propValueCount <= 0;
    7 = N7: invalid length assigned to a non-writable length (RangeError instead of TypeError);
    8 = N10: a failed fast-path splice left len(values) > length;
    9 = N11: splice fast path on a non-extensible array *)
 Definition tags (a : iarr) (o : top) : list N :=
   (if dirty a then [1] else []) ++
-  (if kind_change a o then [2] else []) ++
   (if holey_guard a then [3] else []) ++
   (match shrink_target a o with
    | Some n =>
-       (match a with IS _ => if nonconf_at a n then [4] else [] | _ => [] end) ++
        (if (i_pvc a <=? 0)%Z && existsb (fun p => (n <=? fst p) && negb (iv_conf (snd p))) (idx_items a) then [6] else [])
    | None => []
    end) ++
@@ -400,19 +397,26 @@ Definition tags_at (c : tcase) (ops : list top) (n : N) : list N :=
   let '(ia, o) := istate_at (initI (c_init c)) ops (N.to_nat n) in
   match o with Some o => tags ia o | None => [] end.
 
-(* a divergence from S is explained when the faithful model I reproduces the whole observation and the
-   diverging op lies in the region of a recorded defect *)
+(* a divergence from S is explained when the faithful model I reproduces the observation up to and including
+   the diverging op (afterwards S has left the implementation's state and nothing can be checked against it) and
+   that op lies in the region of a recorded defect *)
 Definition explainedN (c : tcase) : bool :=
   match diffN c with
   | None => true
   | Some n => negb (c_strict c) && (c_kind c =? 0) &&
-              match diffI c with None => negb (match tags_at c (c_ops c) n with [] => true | _ => false end) | _ => false end
+              match diffI c with
+              | None => negb (match tags_at c (c_ops c) n with [] => true | _ => false end)
+              | Some m => (n <? m) && negb (match tags_at c (c_ops c) n with [] => true | _ => false end)
+              end
   end.
 Definition explainedT (c : tcase) : bool :=
   match diffT c with
   | None => true
   | Some n => negb (c_strict c) &&
-              match diffIT c with None => negb (match tags_at c (opsT_of c) n with [] => true | _ => false end) | _ => false end
+              match diffIT c with
+              | None => negb (match tags_at c (opsT_of c) n with [] => true | _ => false end)
+              | Some m => (n <? m) && negb (match tags_at c (opsT_of c) n with [] => true | _ => false end)
+              end
   end.
 
 (* once the normal run has entered the region of a recorded (storage-dependent) defect the twin is no longer
